@@ -223,6 +223,18 @@ func TestC09(t *testing.T) {
 	lim := gen.Limits{MaxBlob: 600, MaxJSONKB: 66}
 	o := gen.HistOpt{MaxRows: 8, Lim: lim}
 	rapidCheck(t, func(rt *rapid.T) {
+		if rapid.IntRange(0, 11).Draw(rt, "part_e2e") == 0 {
+			// end to end: the streamer must split and decode rows with the MOST RECENT table map of the id
+			// (same id announced again with other column types / metadata) - shared with C15's scenario
+			c := drawRebind(rt, 0)
+			rec.Case(true, c, "e2e/re-announced-table-map")
+			journal("C09", "c15rebind", c)
+			if err := checkRebind(c); err != nil {
+				rec.Violation("c15rebind", c, "", err)
+				rt.Fatalf("C09 violation: %v", err)
+			}
+			return
+		}
 		c := &RowsCase{Cfg: gen.Config(rt)}
 		c.Cfg.NHeaderSizes = rapid.IntRange(35, 60).Draw(rt, "nsizes")
 		opt := gen.ColumnOpt{Extra: true}
